@@ -475,7 +475,7 @@ def execSetLocal : M Ctl := do
   let f ← curFrame
   let index := f.bp + idx
   match (← stackGet index) with
-  | .box a => heapSet a (.box value)
+  | .box a => boxSet a value
   | _ => stackSet index value
   setSp (sp - 1); stackSet (sp - 1) .nil; bumpIp 1; return .next
 
@@ -763,7 +763,7 @@ def execSetFree : M Ctl := do
     match fr[idx]? with
     | none => panic s!"runtime error: index out of range [{idx}] with length {fr.length}"
     | some a =>
-      heapSet a (.box (← stackGet (sp - 1)))
+      boxSet a (← stackGet (sp - 1))
       setSp (sp - 1); stackSet (sp - 1) .nil; bumpIp 1; return .next
 
 def execGetLocalPtr : M Ctl := do
@@ -833,11 +833,11 @@ def execIterNext (op : Nat) : M Ctl := do
       if op == OpIterNext then
         match k with
         | .arr _ _ l =>
-          heapSet a (.iter k (i + 1)); stackSet (sp - 1) (.bool (decide (i < (l : Int)))); return .next
+          heapUpd a (.iter k (i + 1)); stackSet (sp - 1) (.bool (decide (i < (l : Int)))); return .next
         | .bytes s =>
-          heapSet a (.iter k (i + 1)); stackSet (sp - 1) (.bool (decide (i < (s.length : Int)))); return .next
+          heapUpd a (.iter k (i + 1)); stackSet (sp - 1) (.bool (decide (i < (s.length : Int)))); return .next
         | .map _ keys =>
-          heapSet a (.iter k (i + 1)); stackSet (sp - 1) (.bool (decide (i < (keys.length : Int)))); return .next
+          heapUpd a (.iter k (i + 1)); stackSet (sp - 1) (.bool (decide (i < (keys.length : Int)))); return .next
         | .str _ _ _ => unsupported "string iteration (utf8 decoding)"
       else if op == OpIterKey then
         match k with
